@@ -493,6 +493,15 @@ func (r *result) adjustEnv(env []*KeyValue, plugin string) error {
 		r.reply.adjust.Env = append(r.reply.adjust.Env, e)
 	}
 
+	// next, apply deletions with no corresponding additions
+	for _, e := range env {
+		if key, marked := e.IsMarkedForRemoval(); marked {
+			if _, ok := mod[key]; !ok {
+				r.reply.adjust.Env = append(r.reply.adjust.Env, e)
+			}
+		}
+	}
+
 	// finally, apply additions/modifications to plugin container creation request
 	for _, e := range add {
 		create.Container.Env = append(create.Container.Env, e.ToOCI())
